@@ -1097,6 +1097,16 @@ class Engine:
                 return self.globals[e.id]
             if e.id in EXC_PARENTS:
                 return ExcClass(e.id)
+            # a module-level helper of the code under contract that has no contract of its own: its real body is executed (inlined)
+            for mod in getattr(self, "source_modules", ()):
+                try:
+                    from . import frontend
+                    node = frontend.find(mod, e.id)
+                except Exception:
+                    continue
+                if isinstance(node, ast.FunctionDef):
+                    self.used_models.add(f"inlined helper {mod}.{e.id} (no contract of its own)")
+                    return Closure(node, Env(None, {}), e.id)
             raise Unsupported(f"unknown name {e.id!r}")
 
     def e_Tuple(self, e, env):
